@@ -170,6 +170,18 @@ def make_prepeptide(parts, leader_len, tail_len, slack=0):
     loc = mk_loc(parts)
     core_len = len(loc) // 3 - leader_len - tail_len - slack
     assert core_len >= 1, (parts, leader_len, tail_len, slack)
+    if core_len >= 2 and (sum(s + e for s, e, _ in parts) + leader_len) % 3 == 0:
+        # second use of the object: built with the cleavage site one residue further on, converted once (result unused),
+        # then moved to where the case wants it through the setters; what is written afterwards is judged as always
+        pre = Prepeptide(loc, "lanthipeptide", "A" * (core_len - 1), "tag", "tool", leader="M" * (leader_len + 1),
+                         tail="C" * tail_len)
+        try:
+            pre.to_biopython()
+        except Exception:  # pylint: disable=broad-except
+            pass
+        pre.leader = "M" * leader_len
+        pre.core = "A" * core_len
+        return pre
     return Prepeptide(loc, "lanthipeptide", "A" * core_len, "tag", "tool", leader="M" * leader_len, tail="C" * tail_len)
 
 
